@@ -1763,7 +1763,7 @@ pub fn check_huge_match_lists(rep: &Report) {
             for ak in AKINDS {
                 // the noncontiguous NFA walks its match lists by index
                 // (quadratic in the list length): quick tier: one shape only
-                if ak == AhoCorasickKind::NoncontiguousNFA && shape == 1 && !rep.thorough() {
+                if ak == AhoCorasickKind::NoncontiguousNFA && ((shape == 1 && !rep.thorough()) || n > 65537) {
                     continue;
                 }
                 items.push((n, shape, ak));
@@ -1789,7 +1789,19 @@ pub fn check_huge_match_lists(rep: &Report) {
         let h = b("xabx");
         // expected: shape 0: (i, 1, 3) for i in 0..n; shape 1: (0, 1, 3) then (i, 2, 3) for i in 1..=n
         let expected: Vec<M> = if shape == 0 { (0..n).map(|i| (i, 1, 3)).collect() } else { std::iter::once((0usize, 1usize, 3usize)).chain((1..=n).map(|i| (i, 2, 3))).collect() };
-        let got_iter = catch_unwind(AssertUnwindSafe(|| ac.find_overlapping_iter(&h).take(expected.len() + 8).map(mm).collect::<Vec<M>>()));
+        let hb = std::cell::RefCell::new(&mut *st);
+        let got_iter = catch_unwind(AssertUnwindSafe(|| {
+            ac.find_overlapping_iter(&h)
+                .take(expected.len() + 8)
+                .enumerate()
+                .map(|(i, m)| {
+                    if i % 256 == 0 {
+                        hb.borrow_mut().add("huge_steps", 1); // heartbeat: the list walk is quadratic for the nNFA
+                    }
+                    mm(m)
+                })
+                .collect::<Vec<M>>()
+        }));
         let skip_steps = quick_nnfa_iter_only && ak == AhoCorasickKind::NoncontiguousNFA;
         let got_steps = catch_unwind(AssertUnwindSafe(|| {
             if skip_steps {
@@ -1797,7 +1809,10 @@ pub fn check_huge_match_lists(rep: &Report) {
             }
             let mut stt = aho_corasick::automaton::OverlappingState::start();
             let mut v = vec![];
-            for _ in 0..expected.len() + 8 {
+            for i in 0..expected.len() + 8 {
+                if i % 256 == 0 {
+                    hb.borrow_mut().add("huge_steps", 1);
+                }
                 ac.find_overlapping(&h, &mut stt);
                 match stt.get_match() {
                     Some(m) => v.push(mm(m)),
@@ -1807,6 +1822,7 @@ pub fn check_huge_match_lists(rep: &Report) {
             v
         }));
         let first = catch_unwind(AssertUnwindSafe(|| ac.find(&h).map(mm)));
+        drop(hb);
         st.add("huge_match_list_cases", 1);
         for (api, got) in [("find_overlapping_iter", &got_iter), ("stepwise find_overlapping", &got_steps)] {
             let ok = got.as_ref().ok() == Some(&expected);
